@@ -1,66 +1,13 @@
 (* Corr/BufferC.v — correspondence evaluator: replays an operation sequence observed on the real
    hb_buffer_t (hook) on the zipper model and compares the logical state after every step. *)
 From Coq Require Import List NArith Bool Arith.
-From RB Require Import Base.Result Model.Buffer Corr.Common.
+From RB Require Import Base.Result Model.Buffer Model.BufferOps Corr.Common.
 Import ListNotations.
 Local Open Scope N_scope.
-
-Inductive bop :=
-| ONextGlyph | ONextGlyphs (n : nat) | OSkip | OReplaceGlyph (g : N) | OReplaceGlyphs (num_in : nat) (gs : list N)
-| OOutputGlyph (g : N) | OOutputInfo (i : info) | OCopyGlyph | ODeleteGlyph | OMoveTo (i : nat)
-| OMergeClusters (s e : nat) | OMergeOut (s e : nat)
-| OUnsafeToBreak (s e : option nat) | OUnsafeToConcat (s e : option nat)
-| OUnsafeToBreakOut (s e : option nat) | OUnsafeToConcatOut (s e : option nat)
-| OClearOutput | OSync | OReverse | OReverseRange (s e : nat) | OReverseGroups (merge : bool)
-| OResetMasks (m : N) | OSetMasks (v m cs ce : N) | OSort (s e : nat) | ODeleteInplace.
 
 (* observed state after a step: panicked? ret mode idx ok scratch pre rest *)
 Record obs := mkObs { o_panic : bool; o_ret : bool; o_mode : bool; o_idx : nat; o_ok : bool; o_scratch : N;
                       o_pre : list info; o_rest : list info }.
-
-(* the harness's closures *)
-Definition grp_cont (x y : info) : bool := negb (N.land (var2 y) 128 =? 0).
-Definition cmp_v1 (x y : info) : bool := N.land (var1 y) 255 <? N.land (var1 x) 255.
-Definition flt_odd (i : info) : bool := N.odd (gid i).
-
-(* model step: result of (ret, state); None = content unspecified from here on *)
-Definition step (b : zbuf) (o : bop) : result (option (bool * zbuf)) :=
-  let r (x : result zbuf) := match x with Ok b' => Ok (Some (true, b')) | Error e => Error e end in
-  match o with
-  | ONextGlyph => r (next_glyph b)
-  | ONextGlyphs n => r (next_glyphs b n)
-  | OSkip => r (skip_glyph b)
-  | OReplaceGlyph g => if out_mode b then r (replace_glyph b g) else Error AssertFail
-  | OReplaceGlyphs n gs => if out_mode b then r (replace_glyphs b n gs) else Error AssertFail
-  | OOutputGlyph g => if out_mode b then r (output_glyph b g) else Error AssertFail
-  | OOutputInfo i => if out_mode b then r (output_info b i) else Error AssertFail
-  | OCopyGlyph => if out_mode b then r (copy_glyph b) else Error AssertFail
-  | ODeleteGlyph => r (delete_glyph b)
-  | OMoveTo i => match move_to b i with Ok (ret, b') => Ok (Some (ret, b')) | Error e => Error e end
-  | OMergeClusters s e => if (e <? s)%nat then Error Overflow else if (blen b <? e)%nat then Error Oob else r (merge_clusters_full b s e)
-  | OMergeOut s e => if (e <? s)%nat then Error Overflow else if negb (out_mode b) then Error AssertFail else r (merge_out_clusters b s e)
-  | OUnsafeToBreak s e => r (unsafe_to_break b s e)
-  | OUnsafeToConcat s e => r (unsafe_to_concat b s e)
-  | OUnsafeToBreakOut s e => r (unsafe_to_break_from_outbuffer b s e)
-  | OUnsafeToConcatOut s e => r (unsafe_to_concat_from_outbuffer b s e)
-  | OClearOutput => if out_mode b then Error AssertFail (* dead prefix not represented *) else Ok (Some (true, clear_output b))
-  | OSync => match sync b with
-             | Ok (Some b') => Ok (Some (true, b'))
-             | Ok None => Ok None
-             | Error e => Error e
-             end
-  | OReverse => if out_mode b then Error AssertFail else r (reverse b)
-  | OReverseRange s e => if out_mode b then Error AssertFail else if (e <? s)%nat then Error Overflow else r (reverse_range b s e)
-  | OReverseGroups m => if out_mode b then Error AssertFail else r (reverse_groups grp_cont m b)
-  | OResetMasks m => if out_mode b then Error AssertFail else Ok (Some (true, reset_masks b m))
-  | OSetMasks v m cs ce => if out_mode b then Error AssertFail else Ok (Some (true, set_masks b v m cs ce))
-  | OSort s e => if out_mode b then Error AssertFail else r (sort cmp_v1 b s e)
-  | ODeleteInplace =>
-      if out_mode b then Error AssertFail
-      else let '(a, touched) := delete_glyphs_inplace (level b) flt_odd (arr b) in
-           (* len = j; idx is left as it was *)
-           Ok (Some (true, add_scratch (with_pr b (firstn (dead b) a) (skipn (dead b) a) (dead b)) touched))
-  end.
 
 Definition info_eqb (a b : info) : bool :=
   (gid a =? gid b) && (mask a =? mask b) && (cluster a =? cluster b) && (var1 a =? var1 b) && (var2 a =? var2 b).
